@@ -142,6 +142,9 @@ func VerifyUnit(prog *Program, cs *ContractSet, uc *UnitContract) *UnitResult {
 		x.assume(st, rt, "requires:"+r.Name)
 		x.propagateConstants(st, rt)
 	}
+	for _, c := range uc.Cases {
+		x.caseTerms = append(x.caseTerms, x.specBool(c, st, spIn))
+	}
 	// the entry snapshot (old(), frame check) sees the propagated constants, too
 	{
 		pcSaved := st.pc
